@@ -673,12 +673,9 @@ func (s *LinearState) expire(ctx *Context, id string, fact map[string]interface{
 		if s.remHook != nil {
 			if rule, _ := ExtractRule(ctx, fact, false); rule != nil {
 				if _, scheduled := rule["schedule"]; scheduled {
-					wasPrivileged := ctx.isPrivileged("hook")
 					s.withPrivilege(ctx)
 					err := s.remHook(ctx, s, id)
-					if !wasPrivileged {
-						s.withoutPrivilege(ctx)
-					}
+					s.withoutPrivilege(ctx)
 					if err != nil {
 						Log(ERROR, ctx, "LinearState.expire", "name", s.Name,
 							"when", "remHook", "error", err)
